@@ -64,7 +64,7 @@ pub struct Interpreter<TStdlib: Stdlib, TStdIn: Input, TStdOut: Printer, TLpt1: 
 
     /// For every pending GOSUB, the sizes of the register stack and the value stack at the
     /// time of the GOSUB. RETURN can be inside a FOR loop or a SELECT CASE of the subroutine.
-    go_sub_depths: Vec<(usize, usize)>,
+    go_sub_depths: Vec<(usize, usize, usize, usize)>,
 
     /// For every active function/sub call, the number of GOSUBs that were pending when it
     /// was entered: RETURN must not consume the GOSUBs of the caller, and the GOSUBs a
@@ -538,18 +538,42 @@ impl<TStdlib: Stdlib, TStdIn: Input, TStdOut: Printer, TLpt1: Printer>
                     self.statement_snapshots.pop();
                 }
             }
-            Instruction::GoSub(address_or_label) => {
+            Instruction::GoSub(address_or_label, for_depth, select_depth) => {
                 self.go_sub_address_stack.push(i);
-                self.go_sub_depths
-                    .push((self.register_stack.len(), self.value_stack.len()));
+                self.go_sub_depths.push((
+                    self.register_stack.len(),
+                    self.value_stack.len(),
+                    *for_depth,
+                    *select_depth,
+                ));
                 ctx.opt_next_index = Some(address_or_label.address());
             }
-            Instruction::Return(opt_address) => match self.pop_go_sub_address() {
+            Instruction::Return(opt_address, for_depth, select_depth) => match self
+                .pop_go_sub_address()
+            {
                 Some(address) => {
                     // leave the FOR loops and SELECT CASE blocks of the subroutine
-                    if let Some((registers, values)) = self.go_sub_depths.pop() {
+                    if let Some((
+                        mut registers,
+                        mut values,
+                        go_sub_for_depth,
+                        go_sub_select_depth,
+                    )) = self.go_sub_depths.pop()
+                    {
+                        if opt_address.is_some() {
+                            // `RETURN label`: the label can have fewer or more blocks around it
+                            // than the `GOSUB` statement had
+                            registers = (registers + for_depth).saturating_sub(go_sub_for_depth);
+                            values = (values + select_depth).saturating_sub(go_sub_select_depth);
+                        }
                         self.register_stack.truncate(registers.max(1));
+                        while self.register_stack.len() < registers {
+                            self.register_stack.push(Registers::new());
+                        }
                         self.value_stack.truncate(values);
+                        while self.value_stack.len() < values {
+                            self.value_stack.push(Variant::VInteger(0));
+                        }
                     }
                     ctx.opt_next_index = Some(match opt_address {
                         Some(address_or_label) => address_or_label.address(),
